@@ -9,12 +9,12 @@ import ast
 from fractions import Fraction
 
 from .. import AnalysisError
-from ..canon import canon, linform, single_assignments
+from ..canon import canon, cexpr, linform, single_assignments
 from ..deg import POLY, TOP, DegChecker
 from ..lin import lin_eq
 from ..pat import find_expr, find_stmt, match_expr, match_stmt
 from ..pm import src
-from ..q import FA, call_name, compare_parts, const, guard_facts, is_neg_inf, is_self_attr, mode_under, walk_no_nested
+from ..q import FA, call_name, compare_parts, const, guard_facts, is_neg_inf, is_self_attr, mode_under, norm_args, walk_no_nested
 
 TECHNIQUE = "R-SIB: canonical-form comparison of the three shrinkage implementations, the final live-count schedules and the boundary constructions against the documented formulas; R-DEG: shift-degree type checking (abstract interpretation) of every expression in the integrator and weight functions; order-insensitive linear forms for the quadrature rules; R-ALIAS (fresh-object analysis of property getters paired with in-place consumers)"
 
@@ -105,38 +105,41 @@ def run(ctx):
         """arguments handed to log_integrate_log_trap, inlined"""
         inl = single_assignments(f.node)
         calls = [n for n in walk_no_nested(f.node) if isinstance(n, ast.Call) and call_name(n) == "log_integrate_log_trap"]
-        if len(calls) != 1 or len(calls[0].args) != 2:
+        if len(calls) != 1 or len(norm_args(calls[0])) != 2:
             raise AnalysisError(f"{f.qual}: expected one log_integrate_log_trap(L, X) call")
-        return canon(calls[0].args[0], inline=inl), canon(calls[0].args[1], inline=inl), calls[0]
+        return canon(norm_args(calls[0])[0], inline=inl), canon(norm_args(calls[0])[1], inline=inl), calls[0]
 
     for f in (fin, lpw):
         L, X, call = closing(f, "L", "X")
         ctx.ob("R-SIB", "C02.3", f, "trapezoid closed with a point at zero volume repeating the last likelihood: (L ++ [L[-1]], X ++ [-inf])",
-               L == "array(self.logLs + [self.logLs[-1]])" and X == "array(self.log_vols + [-inf])", f"L=`{L}` X=`{X}`", node=call)
+               L == cexpr("array(self.logLs + [self.logLs[-1]])") and X == cexpr("array(self.log_vols + [-inf])"), f"L=`{L}` X=`{X}`", node=call)
     # compute_weights builds the volume array imperatively: identify it as the second argument of the integrator
     inl = single_assignments(cw.node)
     calls = [n for n in walk_no_nested(cw.node) if isinstance(n, ast.Call) and call_name(n) == "log_integrate_log_trap"]
-    ctx.require(len(calls) == 1 and isinstance(calls[0].args[1], ast.Name), "compute_weights: integrator call / volume array not found")
+    ctx.require(len(calls) == 1 and len(norm_args(calls[0])) == 2 and isinstance(norm_args(calls[0])[1], ast.Name), "compute_weights: integrator call / volume array not found")
     call = calls[0]
-    Xb = {"X": calls[0].args[1]}
+    Xb = {"X": norm_args(calls[0])[1]}
     tb = {"t": ast.Name(id=tvar[cw.qual], ctx=ast.Load())} if tvar.get(cw.qual) else {}
     x0 = [n for n, b in find_stmt("$$X = $v", cw.node, Xb) if match_expr("zeros(len(samples) + 2)", b["v"], inline=inl) is not None]
+    if not x0:
+        # an uninitialised buffer of the same length whose first slot is set to 0 explicitly
+        x0 = [n for n, b in find_stmt("$$X = $v", cw.node, Xb) if match_expr("empty(len(samples) + 2)", b["v"], inline=inl) is not None and len(find_stmt("$$X[0] = 0", cw.node, Xb)) == 1]
     okv = len(x0) == 1 and len(find_stmt("$$X[1:-1] = cumsum($$t)", cw.node, {**Xb, **tb})) == 1 and len(find_stmt("$$X[-1] = -inf", cw.node, Xb)) == 1 and bool(tb)
     ctx.ob("R-SIB", "C02.3", cw, "one-pass volumes: X[0]=0 (whole prior), X[1:-1]=cumsum(shrinkage), X[-1]=-inf (closing point)", okv, "")
-    L = canon(calls[0].args[0], inline=inl)
-    ctx.ob("R-SIB", "C02.3", cw, "one-pass likelihoods: [-inf] ++ samples ++ [samples[-1]]", L == "concatenate([array([-inf]), samples, array([samples[-1]])])", f"`{L}`", node=call)
+    L = canon(norm_args(calls[0])[0], inline=inl)
+    ctx.ob("R-SIB", "C02.3", cw, "one-pass likelihoods: [-inf] ++ samples ++ [samples[-1]]", L == cexpr("concatenate([array([-inf]), samples, array([samples[-1]])])"), f"`{L}`", node=call)
     # posterior weights: L[1:-1] + logsubexp(X[:-1], X[1:])[:-1] - logZ, with every single-assignment local inlined
-    Ls = "array(self.logLs + [self.logLs[-1]])"
-    Xs = "array(self.log_vols + [-inf])"
+    Ls = cexpr("array(self.logLs + [self.logLs[-1]])")
+    Xs = cexpr("array(self.log_vols + [-inf])")
     want_state = {f"{Ls}[1:-1]": 1, f"logsubexp({Xs}[:-1], {Xs}[1:])[:-1]": 1, f"log_integrate_log_trap({Ls}, {Xs})": -1}
     terms = _returned_weight_terms(lpw, None)
     ctx.ob("R-SIB", "C02.3", lpw, "log posterior weight = L_i + log(X_{i-1} - X_i) - log Z (rectangle weights shifted by one against L)", lin_eq(terms, want_state), f"linear form {({k: str(v) for k, v in (terms or {}).items()})}")
-    Lc = "concatenate([array([-inf]), samples, array([samples[-1]])])"
+    Lc = cexpr("concatenate([array([-inf]), samples, array([samples[-1]])])")
     want_cw = {f"{Lc}[1:-1]": 1, "logsubexp(X[:-1], X[1:])[:-1]": 1, f"log_integrate_log_trap({Lc}, X)": -1}
-    terms = _returned_weight_terms(cw, src(calls[0].args[1]))
+    terms = _returned_weight_terms(cw, src(norm_args(calls[0])[1]))
     ctx.ob("R-SIB", "C02.3", cw, "one-pass log posterior weight = L_i + log(X_{i-1} - X_i) - log Z, with the same shift", lin_eq(terms, want_cw), f"linear form {({k: str(v) for k, v in (terms or {}).items()})}")
     rets = [n for n in walk_no_nested(cw.node) if isinstance(n, ast.Return)]
-    ctx.ob("R-SIB", "C02.3", cw, "the returned evidence is the closed trapezoid over the same arrays", len(rets) == 1 and isinstance(rets[0].value, ast.Tuple) and canon(rets[0].value.elts[0], inline=inl, rename={src(calls[0].args[1]): "X"}) == f"log_integrate_log_trap({Lc}, X)", "")
+    ctx.ob("R-SIB", "C02.3", cw, "the returned evidence is the closed trapezoid over the same arrays", len(rets) == 1 and isinstance(rets[0].value, ast.Tuple) and canon(rets[0].value.elts[0], inline=inl, rename={src(norm_args(calls[0])[1]): "X"}) == f"log_integrate_log_trap({Lc}, X)", "")
     ctx.floor("C02.3", 8)
 
     # ---- C02.5 quadrature forms ---------------------------------------------
